@@ -43,6 +43,9 @@ claimed = {
  "C14": ("SSA rules: effect classification of every map iteration (keyed stores vs order-observable effects), deny-list scan for ambient-state calls, forward taint of path-valued ambient sources through values, struct fields and calls with tree-node / hash / map sinks, backward provenance of the namespace prefix, writer inventory of package-level variables, Transpile's converter/parser discipline",
          "Under soundness of the static view (no reflect/unsafe: checked) the rules cover all call histories, process instances and locations the property quantifies over.",
          "Trusts the taint propagation (field-sensitive at type.field granularity) and C19 for fresh converters at the only in-repo caller.", "§3 C14"),
+ "C06": ("SSA data-flow over the parser: enumeration of every typed slot store (composite literals, constructor calls), backward origin resolution, forward type-derivation that stops at node construction, guard atoms (predicate kind + polarity, wrapper helpers) and cut-based reachability from the value's definition with consistent branch valuation; loop/list, post-construction (delegated type), producer-function and driver second-line guards; partial evaluation of the parser's operator tables against both converters' accept/reject cells",
+         "Decides for every typed position that the required predicate is established on all paths to the node construction; decides table agreement and target independence. Acceptance of all well-typed programs is not decided.",
+         "Trusts the slot requirement table (oracle: Go typing + README signatures) written in the checker; go/ssa.", "§3 C06"),
 }
 na_reason = {
  "C15": "value-level agreement of a TypeShell library executed by a shell with Go's strings package over all arguments; no clause of it is visible in the shape of the Go sources or of std/strings.tsh; static analysis (this task's technique family) cannot address it",
